@@ -52,14 +52,36 @@ class C08(HistoryProperty):
     NONTRIVIAL_MEASURE = "history_with_overlap"
 
     def gen_case(self, rng, tier):
-        cfg = gen.swarm_cfg(rng, off=("shape_change",), on=("presets", "default_presets", "dataset", "derive", "withopts", "map"))
+        cfg = gen.swarm_cfg(rng, off=("shape_change",), on=("presets", "default_presets", "dataset", "derive", "withopts", "map", "dsclass"))
         cfg["partial_section_preset"] = rng.random() < 0.8
         spec = gen.gen_spec(rng, cfg)
+        gadget_roots = []
+        if rng.random() < 0.25:
+            # nesting gadget: two directly stacked wrappers of the same kind whose dictionaries meet inside section S, the
+            # OUTER one holding a plain value where the inner one (and usually the caller) holds a section.  Layer-by-layer
+            # overlay is not associative there: a plain value replaces the section under it, a section replaces a plain value.
+            k = len(spec["nodes"])
+            force = rng.random() < 0.5
+            plain = rng.choice([None, "n/a", 0, False])
+            inner_p = {"S": {rng.choice(["X", "Y"]): rng.choice([5, "in"])}}
+            spec["nodes"] += [
+                {"k": "opt", "key": "S.X", "default": {"t": "const", "v": "dx"}, "id": f"w{k}"},
+                {"k": "opt", "key": "S.Y", "default": {"t": "const", "v": "dy"}, "id": f"w{k + 1}"},
+                {"k": "opt", "key": "S.Z", "default": {"t": "const", "v": "dz"}, "id": f"w{k + 2}"},
+                {"k": "dataset", "name": "NESTX", "args": {"a": f"w{k}", "b": f"w{k + 1}", "c": f"w{k + 2}"}, "cache": rng.choice(["nocache", "default"]), "id": f"w{k + 3}"},
+                {"k": "withopts", "inner": f"w{k + 3}", "options": inner_p, "force": force, "id": f"w{k + 4}"},
+                {"k": "withopts", "inner": f"w{k + 4}", "options": {"S": plain}, "force": force, "id": f"w{k + 5}"},
+            ]
+            gadget_roots = [f"w{k + 5}", f"w{k + 4}"]
+            if rng.random() < 0.5:
+                # a third layer of the same kind on top, a section again
+                spec["nodes"].append({"k": "withopts", "inner": f"w{k + 5}", "options": {"S": {"Z": "top"}}, "force": force, "id": f"w{k + 6}"})
+                gadget_roots.insert(0, f"w{k + 6}")
         wrappers = [n["id"] for n in spec["nodes"] if wrapper_equivalent(spec, n["id"], {}) is not None]
         maps = [n["id"] for n in spec["nodes"] if n["k"] == "map"]
         spec["roots"] = spec["roots"] + rng.sample(maps, min(len(maps), 2))
         extra = rng.sample(wrappers, min(len(wrappers), 3))
-        spec["roots"] = list(dict.fromkeys(spec["roots"] + extra))
+        spec["roots"] = list(dict.fromkeys(spec["roots"] + extra + gadget_roots))
         # the unwrapped counterparts are evaluated too, on the same warm world (shared caches)
         for w in extra:
             _, inner, _ = wrapper_equivalent(spec, w, {})
